@@ -194,7 +194,7 @@ c.param("new_version", KStr())
 c.inline_callees = {"bumpver.cli.get_diff", "bumpver.cli._v2_get_diff", "bumpver.cli._v1_get_diff", "bumpver.cli._print_diff_str", "bumpver.cli._colored_diff_lines"}
 c.ensures("C13._print_diff.diffs_the_configured_files_with_the_new_version_and_writes_nothing", _print_diff_clause(False))
 c.exsures(SystemExit, "C13._print_diff.failure_exits_1_and_writes_nothing", _print_diff_clause(True))
-for _E in (version.PatternError, _re.error):
+for _E in (version.PatternError, _re.error, KeyError, ValueError, IndexError):  # malformed (legacy) pattern text
     c.exsures(_E, f"C13._print_diff.{_E.__name__}_writes_nothing", _print_diff_clause(True))
 c.loop(("bumpver.cli._colored_diff_lines", 0), LoopSpec(carried={}, invariant=lambda a, vs, k, cx, st: True, name="C13._colored_diff_lines.loop", props=("C13",)))
 
